@@ -3,6 +3,8 @@ package message
 import (
 	"context"
 	"sync"
+
+	"github.com/ThreeDotsLabs/watermill/verifhook"
 )
 
 // MessageTransformSubscriberDecorator creates a subscriber decorator that calls transform
@@ -51,6 +53,7 @@ func (t *messageTransformSubscriberDecorator) Subscribe(ctx context.Context, top
 	go func() {
 		for msg := range in {
 			t.transform(msg)
+			verifhook.At("decorator.sub.before_out", topic, msg.UUID)
 			out <- msg
 		}
 		close(out)
